@@ -928,13 +928,25 @@ def nsec_decode_rule(P, rep, rid='R-C10-10'):
     rep.rule(rid, 'state_read_content: the decoded sub-second field becomes STAT_NSEC_INVALID under the single test "field == 0" and field - 1 under its negation; no other condition on the field selects between them', 2)
     c = P.fn('state_read_content')
     rep.analysed(c)
+    # the variable is found by role: the local whose value is handed to file_alloc as the sub-second time (argument 5)
+    roles = []
+    for fa_ in c.calls({'file_alloc'}):
+        o = c.strip(fa_.ops[4])
+        while o[0] == 'i' and c.insts[o[1]].op in ('zext', 'sext', 'trunc'):
+            o = c.strip(c.insts[o[1]].ops[0])
+        if o[0] == 'i' and c.insts[o[1]].op == 'load':
+            a = c.strip(c.insts[o[1]].ops[0])
+            if a[0] == 'i' and c.insts[a[1]].op == 'alloca' and a not in roles:
+                roles.append(a)
+    if not roles:
+        raise AnalysisBroken('state_read_content: the local handed to file_alloc as sub-second time-stamp not found')
     inv = []; dec = []
     for bi in range(len(c.blocks)):
         for x in c.blocks[bi]:
             if x.op != 'store':
                 continue
             dst = c.expr(x.ops[1]); src = c.expr(x.ops[0]).replace(' ', '')
-            if 'mtime_nsec' not in dst or not dst.startswith('&'):
+            if c.strip(x.ops[1]) not in roles or not dst.startswith('&'):
                 continue
             var = dst[1:]
             g = [(t.replace(' ', ''), p) for t, p in guards_of(c, x) if var in t]
